@@ -69,7 +69,7 @@ M("cp_floor_1e30", "pinned defect: curvature floor 1e-30 (reverse of fix d4f4a94
   ("lbfgsb/cauchy.py", "    eps_f_sec = np.finfo(float).eps\n", "    eps_f_sec = 1e-30\n"))
 M("cp_tie_mask", "pinned defect: tied breakpoint reset (reverse of fix 1674fa2)", ["C08"],
   ("lbfgsb/cauchy.py", "    x_cp[d != 0] = (x + t_old * d)[d != 0]\n", "    x_cp[t >= t_cur] = (x + t_old * d)[t >= t_cur]\n"))
-M("cp_d_not_zeroed_on_bound", "d = -grad also for variables held at a bound", ["C08", "C02"],
+M("cp_d_not_zeroed_on_bound", "d = -grad also for variables held at a bound", ["C08"],
   ("lbfgsb/cauchy.py", "    d = np.where(t == 0, 0.0, -grad)\n", "    d = -grad\n"))
 M("cp_no_d_reset", "d[ibp] = 0 omitted after fixing a variable", ["C08"],
   ("lbfgsb/cauchy.py", "        p += g_b * W_b\n        d[ibp] = 0\n", "        p += g_b * W_b\n"))
@@ -82,7 +82,7 @@ M("cp_c_not_advanced", "c not advanced on the last segment", ["C08", "C09"],
   ("lbfgsb/cauchy.py", "    c += delta_t_min * p\n\n    if logger is not None:", "    if logger is not None:"))
 M("cp_strict_break", "break test uses <= (stops at a breakpoint one segment early on ties)", ["C08"],
   ("lbfgsb/cauchy.py", "        if delta_t_min < delta_t:\n            is_gpc_found = True", "        if delta_t_min <= delta_t:\n            is_gpc_found = True"))
-M("cp_wrong_bound_lower", "breakpoints of decreasing variables computed from the upper bound", ["C08", "C02"],
+M("cp_wrong_bound_lower", "breakpoints of decreasing variables computed from the upper bound", ["C08"],
   ("lbfgsb/cauchy.py", "        grad[mask] < 0, (x - ub)[mask] / grad[mask], (x - lb)[mask] / grad[mask]\n",
    "        grad[mask] < 0, (x - ub)[mask] / grad[mask], (x - ub)[mask] / grad[mask]\n"))
 M("cp_f2_no_memory_term", "f'' update drops the memory term", ["C08"],
@@ -92,10 +92,10 @@ M("cp_f2_no_memory_term", "f'' update drops the memory term", ["C08"],
 # --- subspacemin.py -----------------------------------------------------------
 M("ss_sign", "missing minus sign of eq. 5.11", ["C09", "C01"],
   ("lbfgsb/subspacemin.py", "    dHat = -invThet * (rHat + invThet * np.transpose(WTZ).dot(v))", "    dHat = invThet * (rHat + invThet * np.transpose(WTZ).dot(v))"))
-M("ss_ub_minus_x", "(ub - x) instead of (ub - xc) in the truncation", ["C09", "C02"],
+M("ss_ub_minus_x", "(ub - x) instead of (ub - xc) in the truncation", ["C09"],
   ("lbfgsb/subspacemin.py", "                dHat[mask] > 0, (ub - xc)[free_vars][mask], (lb - xc)[free_vars][mask]",
    "                dHat[mask] > 0, (ub - x)[free_vars][mask], (lb - x)[free_vars][mask]"))
-M("ss_no_truncation", "truncation to the box dropped", ["C09", "C02"],
+M("ss_no_truncation", "truncation to the box dropped", ["C09"],
   ("lbfgsb/subspacemin.py", "    return xc + alpha_star * Z @ dHat", "    return xc + Z @ dHat"))
 M("ss_K_theta", "K built with 1/theta dropped", ["C09"],
   ("lbfgsb/subspacemin.py", "    K[:m, :m] = -mats.D - (1 / mats.theta) * YTZZTY", "    K[:m, :m] = -mats.D - YTZZTY"))
@@ -138,3 +138,16 @@ M("ls_default_epsSY", "eps_SY default 1e-8", ["C12"],
 M("ls_clip_only_upper", "trial points clipped to the upper bound only", ["C11", "C02"],
   ("lbfgsb/linesearch.py", "            f_m1, dphi_m1 = sf.fun_and_grad(np.clip(x0 + steplength * d, lb, ub))\n",
    "            f_m1, dphi_m1 = sf.fun_and_grad(np.minimum(x0 + steplength * d, ub))\n"))
+M("ls_nan_step", "pinned defect: objective evaluated at a nan trial point (reverse of fix 1a423ca)", ["C02"],
+  ("lbfgsb/linesearch.py", "            if not np.isfinite(steplength):\n                # the previous trial returned non-finite values and the interpolation\n                # produced a nan step: never evaluate the objective there\n                break\n", ""))
+
+# --- main.py: coherence / counters ---------------------------------------------
+M("main_skip_reeval", "accepted point not re-evaluated: cached values of the last trial are used", ["C05", "C03"],
+  ("lbfgsb/main.py", "            f0, grad = sf.fun_and_grad(x)\n", "            f0, grad = sf.f * sf.scaling_factor, sf.g * sf.scaling_factor\n"))
+M("main_njev_not_restored", "njev not restored from the checkpoint", ["C05"],
+  ("lbfgsb/main.py", "        sf.nfev = checkpoint.nfev\n        sf.ngev = checkpoint.njev\n", "        sf.nfev = checkpoint.nfev\n"))
+M("main_nfev_restored_twice", "nfev of the checkpoint counted twice", ["C05", "C04"],
+  ("lbfgsb/main.py", "        sf.nfev = checkpoint.nfev\n", "        sf.nfev = 2 * checkpoint.nfev\n"))
+M("main_jac_alias_G", "result.jac is the stored G[-1] (stale after a rejected update)", ["C05", "C07"],
+  ("lbfgsb/main.py", "    return OptimizeResult(\n        fun=f0,\n        jac=grad,\n        nfev=sf.nfev,\n        njev=sf.ngev,\n        nit=istate.nit,\n        status=istate.warnflag,\n        message=istate.task_str,\n        x=x,\n        success=istate.is_success,\n        hess_inv=LbfgsInvHessProduct(\n            np.atleast_2d(np.diff(np.array(X), axis=0)),\n            np.atleast_2d(np.diff(np.array(G), axis=0)),",
+   "    return OptimizeResult(\n        fun=f0,\n        jac=G[-1],\n        nfev=sf.nfev,\n        njev=sf.ngev,\n        nit=istate.nit,\n        status=istate.warnflag,\n        message=istate.task_str,\n        x=x,\n        success=istate.is_success,\n        hess_inv=LbfgsInvHessProduct(\n            np.atleast_2d(np.diff(np.array(X), axis=0)),\n            np.atleast_2d(np.diff(np.array(G), axis=0)),"))
